@@ -75,6 +75,12 @@ func TestVerifReplayGetData(t *testing.T) {
 	bv, _ := proto.Marshal(&sdcpb.TypedValue{Value: &sdcpb.TypedValue_BoolVal{BoolVal: true}})
 	stored = append(stored, cache.NewUpdate([]string{"choices", "case2", "log"}, bv, 0, "", 0))
 	intended := []*cache.Update{cache.NewUpdate([]string{"choices", "case1", "case-elem", "elem"}, sv("v"), 5, "x", 0)}
+	// two intents hold the description of ethernet-1/1 in the intended store
+	intended = append(intended,
+		cache.NewUpdate([]string{"interface", "ethernet-1/1", "name"}, sv("ethernet-1/1"), 10, "owner1", 0),
+		cache.NewUpdate([]string{"interface", "ethernet-1/1", "description"}, sv("of owner1"), 10, "owner1", 0),
+		cache.NewUpdate([]string{"interface", "ethernet-1/1", "name"}, sv("ethernet-1/1"), 5, "owner2", 0),
+		cache.NewUpdate([]string{"interface", "ethernet-1/1", "description"}, sv("of owner2"), 5, "owner2", 0))
 	ifPath := func(n string) *sdcpb.Path {
 		return &sdcpb.Path{Elem: []*sdcpb.PathElem{{Name: "interface", Key: map[string]string{"name": n}}}}
 	}
@@ -85,7 +91,8 @@ func TestVerifReplayGetData(t *testing.T) {
 		"entry and a leaf below it":                               {ifPath("ethernet-1/2"), {Elem: []*sdcpb.PathElem{{Name: "interface", Key: map[string]string{"name": "ethernet-1/2"}}, {Name: "description"}}}},
 		"whole list":                                              {{Elem: []*sdcpb.PathElem{{Name: "interface"}}}},
 		"container with a choice, an intent holds the other case": {{Elem: []*sdcpb.PathElem{{Name: "choices"}}}},
-		"unknown path":                                            {{Elem: []*sdcpb.PathElem{{Name: "nosuchthing"}}}},
+		"intended: the entries of one intent, another intent holds the same leaf": {ifPath("ethernet-1/1")},
+		"unknown path": {{Elem: []*sdcpb.PathElem{{Name: "nosuchthing"}}}},
 	}
 	n := 0
 	for rname, paths := range requests {
@@ -98,6 +105,32 @@ func TestVerifReplayGetData(t *testing.T) {
 				func(_ context.Context, _ string, opts *cache.Opts, ps [][]string, _ time.Duration) chan *cache.Update {
 					reads++
 					ch := make(chan *cache.Update, 100)
+					if opts.Store == cachepb.Store_INTENDED {
+						// the cache's read semantics: owner and priority select together (priority > 0); without a priority the
+						// best priority of each path comes back, whoever owns it
+						best := map[string]int32{}
+						for _, u := range intended {
+							k := strings.Join(u.GetPath(), "\x00")
+							if b, ok := best[k]; !ok || u.Priority() < b {
+								best[k] = u.Priority()
+							}
+						}
+						for _, u := range intended {
+							for _, p := range ps {
+								if !vrgCovers(p, u.GetPath()) {
+									continue
+								}
+								if opts.Priority > 0 && (u.Priority() != opts.Priority || (opts.Owner != "" && u.Owner() != opts.Owner)) {
+									continue
+								}
+								if opts.Priority == 0 && u.Priority() != best[strings.Join(u.GetPath(), "\x00")] {
+									continue
+								}
+								ch <- u
+								break
+							}
+						}
+					}
 					if opts.Store == cachepb.Store_CONFIG {
 						seen := map[string]bool{}
 						for _, u := range stored {
@@ -121,7 +154,18 @@ func TestVerifReplayGetData(t *testing.T) {
 			d := &Datastore{config: &config.DatastoreConfig{Name: "dev1", Schema: schema, Validation: &config.Validation{DisableConcurrency: true}}, cacheClient: cc,
 				schemaClient: schemaClient.NewSchemaClientBound(schema.GetSchema(), scl), m: &sync.RWMutex{}, md: &sync.RWMutex{}}
 			var want []string
-			for _, u := range stored {
+			src := stored
+			dstore := &sdcpb.DataStore{Type: sdcpb.Type_MAIN}
+			if strings.HasPrefix(rname, "intended:") {
+				dstore = &sdcpb.DataStore{Type: sdcpb.Type_INTENDED, Owner: "owner1", Priority: 10}
+				src = nil
+				for _, u := range intended {
+					if u.Owner() == "owner1" && u.Priority() == 10 {
+						src = append(src, u)
+					}
+				}
+			}
+			for _, u := range src {
 				for _, p := range paths {
 					if vrgCovers(utils.ToStrings(p, false, false), u.GetPath()) {
 						sp, _ := d.schemaClient.ToPath(context.Background(), u.GetPath())
@@ -133,7 +177,7 @@ func TestVerifReplayGetData(t *testing.T) {
 			}
 			out := make(chan *sdcpb.GetDataResponse, 100)
 			ctx, cancel := context.WithTimeout(context.Background(), 2*time.Second)
-			err = d.Get(ctx, &sdcpb.GetDataRequest{Name: "dev1", Path: paths, DataType: sdcpb.DataType_CONFIG, Encoding: enc, Datastore: &sdcpb.DataStore{Type: sdcpb.Type_MAIN}}, out)
+			err = d.Get(ctx, &sdcpb.GetDataRequest{Name: "dev1", Path: paths, DataType: sdcpb.DataType_CONFIG, Encoding: enc, Datastore: dstore}, out)
 			cancel()
 			var got []string
 			for rsp := range out {
